@@ -109,6 +109,7 @@ func (g *jobGen) genAttempts(m *mJob) ([]mRef, []mPod) {
 			case "succeeded", "failed", "oom":
 				pod.Phase = map[string]string{"succeeded": "Succeeded", "failed": "Failed", "oom": "Failed"}[outcome]
 				pod.OOM = outcome == "oom"
+				pod.PrevOOM = !pod.OOM && c.Chance(1, 4)
 				pod.Scheduled, pod.StatusStart, pod.ContStart, pod.ContFinish = true, ip(created+1), ip(run), ip(fin)
 				if c.Chance(1, 6) {
 					pod.ContStart, pod.ContFinish = nil, nil // evicted before the container ran
@@ -351,6 +352,9 @@ func jobMergeMonitor(res *Result, m *mJob, pods []mPod, rj *execution.Job, js in
 		o, ok := out[p.Name]
 		if !ok {
 			continue
+		}
+		if p.Phase == "Succeeded" && !p.OOM && p.Controlled && o.Status.Result != execution.TaskSucceeded {
+			hit("C10", "C10/succeeded-task-recorded-failed", fmt.Sprintf("task %s: Pod observed Succeeded (container exited 0; restarted after an earlier OOM kill: %v) but the task is recorded %q", p.Name, p.PrevOOM, o.Status.Result))
 		}
 		if (p.Phase == "Succeeded" || p.Phase == "Failed") && (o.DeletedStatus == nil || o.DeletedStatus.Result != o.Status.Result || o.DeletedStatus.State != o.Status.State) {
 			what := fmt.Sprintf("task %s: Pod observed %s but the tombstone (deletedStatus) is %+v", p.Name, p.Phase, o.DeletedStatus)
